@@ -1,5 +1,5 @@
 #![allow(dead_code)]
 use parity_scale_codec::{Compact, Decode, Encode};
-#[derive(Encode, Decode)]
-pub struct T { #[codec(compact)] pub f0: u32, #[codec(skip)] pub f1: u8 }
+#[derive(parity_scale_codec::CompactAs)]
+pub enum T { A(u32) }
 fn main() {}
